@@ -310,6 +310,14 @@ func checkSeries(s *verifh.Sink) {
 	for _, i := range []int64{0, 1, -1, 0x7c, 0x5c, 0x7c5c, 0x5c7c, 0x7c00000000000000, 0x5c7c5c7c5c7c5c7c, math.MinInt64, math.MaxInt64} {
 		vals = append(vals, ev{kind: "int", i: i})
 	}
+	// ints whose stored (zig-zag, big-endian) bytes hold the delimiter / escape byte at each position
+	for pos := uint(0); pos < 8; pos++ {
+		for _, b := range []uint64{0x7c, 0x5c, 0x7d, 0x5d} {
+			zz := b << (8 * pos)
+			vals = append(vals, ev{kind: "int", i: int64(zz>>1) ^ -int64(zz&1)})
+		}
+	}
+	vals = append(vals, ev{kind: "int", i: int64(uint64(0x7c5c7c5c7c5c7c5c)>>1)}, ev{kind: "int", i: 190}, ev{kind: "int", i: 318})
 	vals = append(vals, ev{kind: "ts", i: 0x7c * 1e9}, ev{kind: "ts", i: 1700000000123456789}, ev{kind: "ts", i: 0x5c7c})
 	subjects := []string{"", "a", "|", "\\", "a|", "\\|", "a\\", "m1", "\x01", "\x01|"}
 
@@ -395,6 +403,29 @@ func checkSeries(s *verifh.Sink) {
 				}
 			}
 		}
+	}
+	// seeded random tuples: arbitrary ints/timestamps/strings (most byte values hit every payload position)
+	rr := verifh.Rand("c12series", 0)
+	for k := 0; k < verifh.Pick(60000, 1500000); k++ {
+		n := 1 + rr.Intn(3)
+		tuple := make([]ev, n)
+		for j := range tuple {
+			switch rr.Intn(4) {
+			case 0:
+				tuple[j] = ev{kind: "int", i: int64(rr.Uint64()) >> uint(rr.Intn(64))}
+			case 1:
+				tuple[j] = ev{kind: "int", i: int64(rr.Intn(1 << 16))}
+			case 2:
+				tuple[j] = ev{kind: "ts", i: rr.Int63n(4e18)}
+			default:
+				b := make([]byte, rr.Intn(6))
+				for x := range b {
+					b[x] = []byte{'|', '\\', 0, 'a', 'b', '|', '\\'}[rr.Intn(7)]
+				}
+				tuple[j] = ev{kind: []string{"str", "bin"}[rr.Intn(2)], s: string(b)}
+			}
+		}
+		checkOne(subjects[rr.Intn(len(subjects))], tuple)
 	}
 	s.Count("series.tuples", int64(total))
 	s.Count("series.tuples_with_delimiter_escape_or_null", int64(nontriv))
